@@ -77,6 +77,9 @@ def _check_power_applied(ctx: Ctx) -> None:
 
 
 MUTANTS = [
+    Mutant('per-user-count-leaks-into-later-loop', ALGS, 'IterativeIASolverBaseClass._solve_finalize',
+           [('regex_all', r'for \(?k, n\)? in zip\(mod_users, num_significant_sing_values\):', 'for k in mod_users:')],
+           r'C10\.f:IterativeIASolverBaseClass\._solve_finalize:leak:n'),
     Mutant('P-stored-before-positivity-check', BASE, 'IASolverBaseClass.P@setter',
            [('replace', '    value = np.array(value)\n', '    value = np.array(value)\n        self._P = value\n')], r'C10\.d:IASolverBaseClass\.P@setter'),
     Mutant('revert-fix-clear-before-validation', BASE, 'IASolverBaseClass.set_receive_filters',
